@@ -159,9 +159,14 @@ def _json_config(spec, d: D, rich_guards: bool, hostile: bool):
 
 def _ident(name: str) -> str:
     """'en:m.a.b' -> 'enMAB' (letter/digit-only camelCase; the JSON-loading templates bind by name)."""
-    parts = [p for p in "".join(ch if ch.isalnum() else " " for ch in name).split() if p]
+    parts = [p for p in "".join(ch if ch.isalpha() else " " for ch in name).split() if p]
+    digits = "".join(ch for ch in name if ch.isdigit())
+    if digits:
+        parts.append("n" + "".join("abcdefghij"[int(c)] for c in digits))
+    # single-letter components make camelCase <-> snake_case conventions disagree (exMC -> ex_mc -> exMc)
+    parts = [(p_ * 2 if len(p_) == 1 else p_).lower() for p_ in parts]
     if not parts:
-        return "x"
+        return "xx"
     out = parts[0][0].lower() + parts[0][1:]
     for p_ in parts[1:]:
         out += p_[0].upper() + p_[1:]
@@ -377,7 +382,8 @@ def check_case(case) -> CaseResult:
                                 {"path": d_[0], "json": d_[1], "generated": d_[2], "cli_said": [l for l in text.splitlines() if "Verified" in l][:1]})
         else:
             if rep.get("error"):
-                res.violate(f"generated-logic-does-not-bind|{shape}|{_errkind(rep['error'])}", {"error": rep["error"]})
+                pos = _name_position(cfg, rep["error"]) if label != "hostile" and label != "corpus" else _errkind(rep["error"])
+                res.violate(f"generated-logic-does-not-bind|{shape}|{pos}", {"error": rep["error"]})
         # ---- idempotence and --check
         rc2, text2 = _cli(args, tmp)
         again = _listing(out)
@@ -402,6 +408,36 @@ def check_case(case) -> CaseResult:
             uniq.append((t, d_))
     res.violations = uniq
     return res
+
+
+def _name_position(cfg, err):
+    """Where in the config does the name the generated logic failed to bind occur?"""
+    parts = (err or "").split("'")
+    if len(parts) < 2:
+        return _errkind(err)
+    name = parts[1]
+    found = set()
+
+    def walk(o, path):
+        if isinstance(o, dict):
+            for k, v in o.items():
+                walk(v, path + [k])
+        elif isinstance(o, list):
+            for v in o:
+                walk(v, path)
+        elif o == name:
+            keys = [k for k in path if k in ("onDone", "onError", "after", "invoke", "always", "on", "entry", "exit")]
+            if "invoke" in keys:
+                found.add("invoke-handler")
+            elif "onDone" in keys:
+                found.add("state-onDone")
+            elif keys:
+                found.add(keys[-1] if keys[-1] != "on" else "on")
+            else:
+                found.add("other")
+
+    walk(cfg, [])
+    return "+".join(sorted(found)) or _errkind(err)
 
 
 def _errkind(err):
